@@ -315,7 +315,7 @@ fn text_strategy() -> impl Strategy<Value = TextCase> {
     // every registered claim present once, in any order, with 0..4 unknown members anywhere (also last):
     // what a foreign issuer's full token looks like
     let stamp2 = || (2000u16..=2100, 1u8..=12, 1u8..=28, 0u8..24, 0u8..60, 0u8..60).prop_map(|(y, mo, d, h, mi, s)| MemberVal::Stamp { y, mo, d, h, mi, s, frac_digits: 0, frac: 0, off_min: 0, zulu: true });
-    let full = (string_strategy(), string_strategy(), string_strategy(), string_strategy(), stamp2(), stamp2(), stamp2(), proptest::collection::vec((prop::sample::select(vec!["data", "role", "zzz", "a"]), any::<u8>()), 0..4), any::<u64>()).prop_map(|(iss, sub, aud, jti, exp, nbf, iat, extras, order)| {
+    let full = (string_strategy(), string_strategy(), string_strategy(), string_strategy(), stamp2(), stamp2(), stamp2(), proptest::collection::vec((prop::sample::select(vec!["data", "role", "zzz", "a"]), any::<u8>()), 0..4), any::<u64>(), proptest::collection::vec((0usize..7, any::<u8>(), any::<bool>()), 0..3)).prop_map(|(iss, sub, aud, jti, exp, nbf, iat, extras, order, dups)| {
         let mut members: Vec<(String, MemberVal)> = vec![
             ("iss".into(), MemberVal::Str(iss)),
             ("sub".into(), MemberVal::Str(sub)),
@@ -337,6 +337,13 @@ fn text_strategy() -> impl Strategy<Value = TextCase> {
                 let at = (pos as usize) % (members.len() + 1);
                 members.insert(at, (k.to_string(), MemberVal::Num(pos as i64)));
             }
+        }
+        // one case in three repeats a registered member (another value), at the end or anywhere
+        for (which, pos, at_end) in dups {
+            let name = ["iss", "sub", "aud", "jti", "exp", "nbf", "iat"][which];
+            let val = if which < 4 { MemberVal::Str(format!("second-{pos}")) } else { MemberVal::Stamp { y: 2200 + pos as u16, mo: 1, d: 1, h: 0, mi: 0, s: 0, frac_digits: 0, frac: 0, off_min: 0, zulu: true } };
+            let at = if at_end { members.len() } else { (pos as usize) % (members.len() + 1) };
+            members.insert(at, (name.to_string(), val));
         }
         TextCase { spell: vec![0; members.len()], members }
     });
@@ -643,7 +650,7 @@ pub fn def() -> PropertyDef {
     PropertyDef {
         id: "C14",
         level: "exploration",
-        rule: "(a) proptest RegisteredClaims (7 fields absent/present; strings over all of Unicode incl. long runs of 200..5000 characters, NUL, quotes, backslash, U+2028, surrogate-adjacent code points, U+10FFFF; timestamps over jiff's range at ns resolution): decode(encode(c)) == c field-wise (also when embedded in an application struct with #[serde(flatten)]), the wire form parses with serde_json::Value to an object whose member set is exactly the present claims, strings byte for byte, timestamps (years 0000..9999) accepted by an own strict RFC 3339 reader and denoting the same instant; (b) generated JSON object texts (registered and look-alike keys, member names spelled plainly or with \\uXXXX escapes, strings, nulls, wrong types, nested objects re-using claim names, timestamps written from civil components with 0-9 fraction digits and numeric offsets, arbitrary order, duplicates): when decode succeeds every registered claim equals what a generic parser reads for that member (last duplicate; instants computed by the generator, not by jiff); objects with well-typed members, no duplicates and arbitrary extras must decode (incl. objects with all seven claims present in any order and unknown members before, between and after them); JSON texts that are not objects (arrays of 0..9 elements incl. elements that would fit the seven claims positionally, scalars, strings) never decode to any claim; (c) Json<T> payload/footer equal serde_json::to_vec / from_slice on generated Value trees and a typed struct; empty Json footer is an error; (d) histories on one thread mixing encodes / decodes that fail (a Serialize impl failing after it emitted output, non-string map keys, truncated JSON) with checked encodes and decodes: a failed operation leaves nothing behind. Non-trivial iff 1..6 fields present / an extra, duplicate or >= 2 members / a container value",
+        rule: "(a) proptest RegisteredClaims (7 fields absent/present; strings over all of Unicode incl. long runs of 200..5000 characters, NUL, quotes, backslash, U+2028, surrogate-adjacent code points, U+10FFFF; timestamps over jiff's range at ns resolution): decode(encode(c)) == c field-wise (also when embedded in an application struct with #[serde(flatten)]), the wire form parses with serde_json::Value to an object whose member set is exactly the present claims, strings byte for byte, timestamps (years 0000..9999) accepted by an own strict RFC 3339 reader and denoting the same instant; (b) generated JSON object texts (registered and look-alike keys, member names spelled plainly or with \\uXXXX escapes, strings, nulls, wrong types, nested objects re-using claim names, timestamps written from civil components with 0-9 fraction digits and numeric offsets, arbitrary order, duplicates): when decode succeeds every registered claim equals what a generic parser reads for that member (last duplicate; instants computed by the generator, not by jiff); objects with well-typed members, no duplicates and arbitrary extras must decode (incl. objects with all seven claims present in any order and unknown members before, between and after them, and such objects with a registered member repeated anywhere, also after the seventh); JSON texts that are not objects (arrays of 0..9 elements incl. elements that would fit the seven claims positionally, scalars, strings) never decode to any claim; (c) Json<T> payload/footer equal serde_json::to_vec / from_slice on generated Value trees and a typed struct; empty Json footer is an error; (d) histories on one thread mixing encodes / decodes that fail (a Serialize impl failing after it emitted output, non-string map keys, truncated JSON) with checked encodes and decodes: a failed operation leaves nothing behind. Non-trivial iff 1..6 fields present / an extra, duplicate or >= 2 members / a container value",
         assumptions: vec!["leap seconds (:60) are not generated (jiff clamps them; the generator's own arithmetic would not)", "negative and 5-digit years are checked for round-trip only (outside RFC 3339)"],
         subs,
     }
